@@ -63,7 +63,13 @@ class WBV(CurrentPropertyListMixIn, BinaryValueObject):
 
 class DevApp(ApplicationIOController, WhoIsIAmServices, ReadWritePropertyServices, ReadWritePropertyMultipleServices,
              ChangeOfValueServices, DeviceCommunicationControlServices):
-    pass
+    """as the library intends, the application keeps its device information cache up to date from the I-Ams it hears"""
+
+    def do_IAmRequest(self, apdu):
+        try:
+            self.deviceInfoCache.iam_device_info(apdu)
+        finally:
+            WhoIsIAmServices.do_IAmRequest(self, apdu)
 
 
 class Device:
@@ -161,6 +167,9 @@ def classify(octets):
         return {"class": "bad-apci"}
     if ap["type"] != W.CONFIRMED:
         return {"class": "apdu-type-%d" % ap["type"], "apci": ap}
+    if ap["seg"] and ap["seq"] == 0 and not ap["mor"] and np["snet"] is None and 1 <= ap["win"] <= 127:
+        # a "segmented" request that is complete with its first segment: well-framed like any other
+        return {"class": "well-framed-single-segment", "apci": ap, "invoke": ap["invoke"]}
     if ap["seg"]:
         return {"class": "segmented-request", "apci": ap, "invoke": ap["invoke"]}
     if np["snet"] is not None:
@@ -207,6 +216,8 @@ def run_batch(run, frames, label, wit_extra=None, followups=(), big_device=False
         run.seen("exceptions_reaching_the_event_loop", "%s@%s" % (r["exc"], r["origin"]))
     # replies from the device to the injector, by invoke id
     replies = {}
+    replies2 = {}               # ... and to the second station
+    classes2 = classes + [dict(classify(o), station=sst) for d_, sst, o in followups]
     dcc_acked = False
     for rec in lan.frames[n0:]:
         if str(rec["src"]) != str(DEV):
@@ -218,9 +229,10 @@ def run_batch(run, frames, label, wit_extra=None, followups=(), big_device=False
         if ap["type"] in (W.SIMPLE_ACK, W.ERROR, W.REJECT, W.ABORT) or (ap["type"] == W.COMPLEX_ACK and (not ap["seg"] or ap["seq"] == 0)):
             if d["dst"] == str(INJ2):
                 # only a well-framed request of the second station itself may be answered to it
-                if not any(cc.get("invoke") == ap["invoke"] and cc["station"] == INJ2 and (cc["class"].startswith("well-framed") or cc["class"] == "segmented-request") for cc in classes):
+                if not any(cc.get("invoke") == ap["invoke"] and cc["station"] == INJ2 and (cc["class"].startswith("well-framed") or cc["class"] == "segmented-request") for cc in classes2):
                     run.violation("reply-sent-to-a-station-that-did-not-ask", dict(wit, invoke=ap["invoke"], type=ap["type"]))
                     return False
+                replies2.setdefault(ap["invoke"], []).append(ap)
                 continue
             if ap["type"] == W.COMPLEX_ACK and ap["seg"] and len(replies.get(ap["invoke"], [])) >= 1 and not any(
                     cc.get("invoke") == ap["invoke"] for cc in classes[1:] if cc["class"].startswith("well-framed")):
@@ -233,7 +245,7 @@ def run_batch(run, frames, label, wit_extra=None, followups=(), big_device=False
     dcc_acked = dcc_acked and getattr(dev.smap, "dccEnableDisable", "disable") != "enable"
     expected = {}
     for c in classes:
-        if c["class"] in ("well-framed", "well-framed-routed") and c["station"] == INJ:
+        if c["class"] in ("well-framed", "well-framed-routed", "well-framed-single-segment") and c["station"] == INJ:
             expected[c["invoke"]] = expected.get(c["invoke"], 0) + 1
     run.count("well_framed_requests_injected", sum(expected.values()))
     run.count("frames_injected", len(frames))
@@ -261,6 +273,21 @@ def run_batch(run, frames, label, wit_extra=None, followups=(), big_device=False
                                         swallowed=swallowed[:2]))
                 ok = False
                 break
+        # the second station's own well-framed (unrouted) requests: one reply each, whatever the first station has going on
+        exp2 = {}
+        for c in classes2:
+            if c["class"] == "well-framed" and c["station"] == INJ2:
+                exp2[c["invoke"]] = exp2.get(c["invoke"], 0) + 1
+        for inv, n in exp2.items():
+            got = len(replies2.get(inv, []))
+            run.count("requests_checked_for_exactly_one_reply", n)
+            run.count("second_station_requests_checked", n)
+            if got != n and ok:
+                key = "well-framed-request-of-another-station-not-answered" if got < n else "request-of-another-station-answered-more-than-once"
+                if swallowed:
+                    key += "/%s@%s" % (swallowed[0]["exc"], (swallowed[0]["origin"] or "?").split(":")[1])
+                run.violation(key, dict(wit, invoke=inv, replies=got, expected=n, swallowed=swallowed[:2]))
+                ok = False
     else:
         run.count("batches_with_accepted_communication_control")
     # replies with an invoke id nobody used
@@ -320,7 +347,8 @@ def main():
     thorough = run.tier == "thorough"
     if thorough and run.args.shard is None:
         run.run_shards("rv.props.c10", timeout=3400)
-        return run.finish(require=("well_framed_requests_injected", "requests_checked_for_exactly_one_reply", "subsequent_reads_checked", "batches_held"))
+        return run.finish(require=("well_framed_requests_injected", "requests_checked_for_exactly_one_reply", "subsequent_reads_checked", "batches_held",
+                                   "second_station_requests_checked"))
     rng = run.rng("c10")
     idx = 0
     valid = valid_frames()
@@ -345,6 +373,12 @@ def main():
             run.case(("mut", label, k, run.seed if not thorough else 0), sample={"base": label, "mutants": [m[:40] for m in chunk[:3]]},
                      sample_key=("mut", label))
             run_batch(run, batch, "mutants/" + label)
+    # 2a. every valid request once more as a "segmented" request that consists of its first segment only
+    for label, f in valid[:11]:
+        apdu = f[2:]
+        one = f[:2] + bytes([apdu[0] | 0x08]) + apdu[1:3] + bytes([0, rng.choice([1, 2, 16])]) + apdu[3:]
+        run.case(("single-segment", label), sample={"single_segment_request": label, "octets": one}, sample_key=("single", label == "ReadProperty"))
+        run_batch(run, [one, confirmed(152, 12, [ctx(0, objid(2, 1)), ctx(1, b"\x55")])], "single-segment/" + label)
     # 2b. garbage from a second station that claims to forward for a remote network, then a valid routed request through
     #     the genuine router: the answer has to go back through the station that forwarded the request
     for i in range((16000 if thorough else 60) // (run.shard[1] if thorough else 1)):
@@ -380,6 +414,54 @@ def main():
             fol.append((rng.choice([0.0, 0.1, 1.0, 2.5]), INJ, o))
         run.case(("segdialogue", run.shard[0], i), sample={"segmented_answer_dialogue": [(d, o[:12]) for d, st, o in fol]}, sample_key=("segd", i < 1))
         run_batch(run, [big], "segmented-answer-dialogue", followups=fol, big_device=True)
+    # 2d. two stations using the same invoke id: the second asks while the first station's transaction is still open (a
+    #     segmented answer under way, a segmented request being uploaded)
+    def iam(station, seg, maxapdu=480):
+        body = R.tlv_encode([(R.APP, R.OBJID, 4, objid(8, station)), (R.APP, R.UNSIGNED, 2, struct.pack(">H", maxapdu)),
+                             (R.APP, R.ENUM, 1, bytes([seg])), (R.APP, R.UNSIGNED, 2, struct.pack(">H", 999))])
+        return W.npci_build({"payload": W.apci_build({"type": W.UNCONFIRMED, "service": 0, "payload": body})})
+
+    for i in range((4000 if thorough else 40) // (run.shard[1] if thorough else 1)):
+        idx += 1
+        inv = rng.choice([170, 9, 255, 0])
+        other = rng.choice(valid[:6] + valid[8:11])
+        second = bytearray(other[1])
+        # same invoke id as the first station's transaction (the invoke id is the third octet of the APDU, NPCI is 2 octets)
+        second[4] = inv
+        if rng.random() < 0.5:
+            first = confirmed(inv, 14, [ctx(0, objid(8, DEV)), (R.OPEN, 1, 0, b""), ctx(0, b"\x4c"), (R.CLOSE, 1, 0, b"")], max_resp=0, sa=True)
+            kind = "during-segmented-answer"
+        else:
+            # first segment of a two-segment request (more follows), never completed
+            first = W.npci_build({"der": True, "payload": W.apci_build({"type": W.CONFIRMED, "seg": True, "mor": True, "sa": True, "max_segs": 0, "max_resp": 5,
+                                                                         "invoke": inv, "seq": 0, "win": 2, "service": 15, "payload": b"\x0c\x00\x80\x00\x01"})})
+            kind = "during-segmented-request"
+        fol = [(rng.choice([0.0, 0.1, 0.5]), INJ2, bytes(second))]
+        if rng.random() < 0.5:
+            fol.append((rng.choice([0.0, 0.2]), INJ2, bytes(second[:4]) + bytes([(inv + 1) & 0xFF]) + bytes(second[5:])))
+        run.case(("two-stations", run.shard[0], i), sample={"same_invoke_id_from_two_stations": kind, "second_request": other[0]}, sample_key=("2st", kind))
+        run_batch(run, [first], "same-invoke-id-from-another-station/" + kind, followups=fol, big_device=True)
+    # 2e. the device has heard the requester's I-Am; the request then says something else about segmentation than the I-Am
+    #     (segmented response accepted although the I-Am said no segmentation), or another I-Am arrives around the request
+    for i in range((4000 if thorough else 60) // (run.shard[1] if thorough else 1)):
+        idx += 1
+        seg = rng.choice([3, 3, 1, 0, 2])           # no-segmentation, segmented-transmit, segmented-both, segmented-receive
+        which = rng.choice([0, 2, 3, 4, 6, 8, 9, 10])
+        req = bytearray(valid[which][1])
+        if rng.random() < 0.7:
+            req[2] |= 0x02                          # segmented response accepted
+        batch = [iam(INJ, seg)]
+        if rng.random() < 0.3:
+            batch.append(iam(INJ2, rng.choice([0, 3])))
+        batch.append(bytes(req))
+        if rng.random() < 0.4:
+            batch.append(iam(INJ, rng.choice([0, 3])))
+        second = bytearray(valid[rng.choice([0, 3, 4])][1])
+        second[4] = 77
+        second[2] |= 0x02
+        batch.append(bytes(second))
+        run.case(("after-iam", run.shard[0], i), sample={"request_after_i_am": valid[which][0], "i_am_segmentation": seg}, sample_key=("iam", seg))
+        run_batch(run, batch, "request-after-i-am")
     # 3. random octets at three layers
     nrand = (80000 if thorough else 500) // (run.shard[1] if thorough else 1)
     for i in range(nrand):
@@ -398,7 +480,8 @@ def main():
                 batch.append(rng.choice(valid)[1])
         run.case(("rand", run.shard[0], i), sample={"random_batch": [b[:24] for b in batch[:3]]}, sample_key=("rand", i < 2))
         run_batch(run, batch, "random")
-    run.finish(require=("well_framed_requests_injected", "requests_checked_for_exactly_one_reply", "subsequent_reads_checked", "batches_held"))
+    run.finish(require=("well_framed_requests_injected", "requests_checked_for_exactly_one_reply", "subsequent_reads_checked", "batches_held",
+                        "second_station_requests_checked"))
 
 
 def replay(run):
